@@ -40,7 +40,7 @@ var (
 	c16Errnos      = []string{"EIO", "ENOSPC", "EACCES", "EDQUOT"}
 	c16Global      = []string{"write", "pwrite64", "close", "fsync", "rename", "renameat", "renameat2", "fchmod", "fchmodat", "chmod", "ftruncate", "unlinkat", "fstat", "newfstatat", "fchown", "linkat"}
 	c16PathSys     = []string{"openat", "read"}
-	c16Inputs      = []string{"missing-path-first", "missing-dir-first", "two-missing-paths", "unparseable-source", "unparseable-result", "rewrite-error", "missing-path", "missing-patch", "malformed-patch", "missing-list-entry", "unreadable-source", "unreadable-patch", "directory-named-go", "rewrite-error-plus-other-change"}
+	c16Inputs      = []string{"unparseable-then-unreadable", "patch-list-is-a-directory", "patch-list-line-too-long", "missing-path-first", "missing-dir-first", "two-missing-paths", "unparseable-source", "unparseable-result", "rewrite-error", "missing-path", "missing-patch", "malformed-patch", "missing-list-entry", "unreadable-source", "unreadable-patch", "directory-named-go", "rewrite-error-plus-other-change"}
 	c16ErrnoText   = map[string]string{"EIO": "input/output error", "ENOSPC": "no space left on device", "EACCES": "permission denied", "EDQUOT": "disk quota exceeded", "EFBIG": "file too large"}
 	c16FaultsCache = map[string][]fault{}
 )
@@ -223,12 +223,27 @@ func runC16(ctx *core.Ctx, idx int) *core.Result {
 		case "malformed-patch":
 			patch = "@@\nvar x expression\n@@\n-bump(x\n+bump(x + 1)\n"
 			expectFailFile, causeWords = "p.patch", []string{"expected", "found", "missing"}
+		case "patch-list-is-a-directory":
+			// -P names something that cannot be read as a list: no patch is loaded, nothing may be reported as done
+			patchArgs = []string{"-P", "../listdir"}
+			expectFailFile, causeWords = "listdir", []string{"is a directory"}
+		case "patch-list-line-too-long":
+			patchArgs = []string{"-P", "../biglist.txt"}
+			expectFailFile, causeWords = "biglist.txt", []string{"too long"}
 		case "missing-list-entry":
 			patchArgs = []string{"-P", "../list.txt"}
 			expectFailFile, causeWords = "gone.patch", []string{"no such file"}
 		case "unreadable-source":
 			ft = fault{Kind: "inject-path", Syscall: "openat", Errno: "EACCES", When: 1, Target: tgt, Input: "unreadable-source"}
 			expectFailFile, causeWords = files[tgt].name, []string{"permission denied"}
+		case "unparseable-then-unreadable":
+			// the first file does not parse (collected, the run goes on), the last one cannot be read (the run
+			// stops): both have to be named
+			files[0].src = "package p\n\nfunc broken( {\n\tbump(1)\n"
+			tgt = n - 1
+			ft = fault{Kind: "inject-path", Syscall: "openat", Errno: "EACCES", When: 1, Target: tgt, Input: "unparseable-then-unreadable"}
+			expectFailFile, causeWords = files[tgt].name, []string{"permission denied"}
+			alsoNamed = append(alsoNamed, files[0].name)
 		case "unreadable-patch":
 			expectFailFile, causeWords = "p.patch", []string{"permission denied"}
 		case "directory-named-go":
@@ -242,6 +257,8 @@ func runC16(ctx *core.Ctx, idx int) *core.Result {
 		os.MkdirAll(filepath.Join(d, "tree"), 0o755)
 		os.WriteFile(filepath.Join(d, "p.patch"), []byte(patch), 0o644)
 		os.WriteFile(filepath.Join(d, "list.txt"), []byte("p.patch\ngone.patch\n"), 0o644)
+		os.MkdirAll(filepath.Join(d, "listdir"), 0o755)
+		os.WriteFile(filepath.Join(d, "biglist.txt"), []byte(strings.Repeat("x", 70000)+"\n../p.patch\n"), 0o644)
 		for _, f := range files {
 			os.WriteFile(filepath.Join(d, "tree", f.name), []byte(f.src), 0o644)
 		}
@@ -279,6 +296,11 @@ func runC16(ctx *core.Ctx, idx int) *core.Result {
 		patched[f.name] = string(b)
 		if f.src != pristine[f.name] {
 			patched[f.name] = f.src // an input-corrupted file must be left exactly as it is
+		}
+	}
+	if ft.Input == "patch-list-is-a-directory" || ft.Input == "patch-list-line-too-long" {
+		for _, f := range files {
+			patched[f.name] = f.src // the patches could not be loaded: nothing may change
 		}
 	}
 	if patch != pristinePatch {
@@ -333,8 +355,9 @@ func runC16(ctx *core.Ctx, idx int) *core.Result {
 	case "inject-path":
 		cr, _, raw = ctx.RunCLIStrace(opts, "-P", filepath.Join(tree, files[tgt].name), "-e", fmt.Sprintf("inject=%s:error=%s:when=%d", ft.Syscall, ft.Errno, ft.When))
 		fired = strings.Contains(raw, "INJECTED")
-		if !fired && ft.Input == "unreadable-source" {
+		if !fired && (ft.Input == "unreadable-source" || ft.Input == "unparseable-then-unreadable") {
 			expectFailFile = ""
+			alsoNamed = nil
 		}
 	case "kill":
 		cr, _, raw = ctx.RunCLIStrace(opts, "-e", fmt.Sprintf("inject=%s:signal=SIGKILL:when=%d", ft.Syscall, ft.When))
@@ -451,6 +474,11 @@ func runC16(ctx *core.Ctx, idx int) *core.Result {
 			if !strings.Contains(stderr, expectFailFile) {
 				res.Violate("C16/stderr-does-not-name-path", fmt.Sprintf("[%s] stderr does not mention %q: %s", ft, expectFailFile, core.Trunc(stderr, 300)), rep)
 			} else {
+				for _, an := range alsoNamed {
+					if !strings.Contains(stderr, an) {
+						res.Violate("C16/stderr-does-not-name-path", fmt.Sprintf("[%s] stderr names %q but not %q, a second path that could not be processed: %s", ft, expectFailFile, an, core.Trunc(stderr, 300)), rep)
+					}
+				}
 				okc := false
 				for _, w := range causeWords {
 					if strings.Contains(low, w) {
